@@ -110,7 +110,11 @@ func (s *SimNet) send(from, to uint64, req *pb.RaftMessage) (*pb.EmptyMessage, e
 	p := s.policy
 	blocked := p.Blocked[[2]uint64{from, to}]
 	drop := blocked || s.rng.Float64() < p.Drop
-	dup := !drop && s.rng.Float64() < p.Dup
+	// A forwarded proposal travels in exactly one unary RPC: the transport can
+	// lose or delay it, never deliver it twice (raft re-sends its own protocol
+	// messages, so those may arrive twice; a proposal delivered twice would be
+	// applied twice, which no property excludes and no deployment can produce)
+	dup := !drop && m.Type != raftpb.MsgProp && s.rng.Float64() < p.Dup
 	var d1, d2 time.Duration
 	if p.DelayMax > 0 {
 		d1 = time.Duration(s.rng.Int63n(int64(p.DelayMax)))
